@@ -345,15 +345,15 @@ Lemma walk_eq d data : walk d data =
   end.
 Proof. destruct d. reflexivity. Qed.
 
-Lemma walk_entry_obj nm kd' vd' body : d_type kd' = FTString ->
+Lemma walk_entry_obj nm kd' vd' body : d_type kd' = FTString -> d_explicit kd' = false ->
   walk (Desc 0 [] FTStruct nm [kd'; vd'] false LTMapEntry) body
   = walk_fields (subwalk [kd'; vd']) [kd'; vd'] true (S (length body)) body 0 false false [].
 Proof.
-  intros H. rewrite walk_eq.
+  intros H Hx. rewrite walk_eq.
   change (walk_scalar (Desc 0 [] FTStruct nm [kd'; vd'] false LTMapEntry) body) with (@None wres). cbv beta iota.
   change (FTStruct =? FTSlice) with false. change (FTStruct =? FTStruct) with true. cbv iota.
-  unfold is_json_map_entry. cbn [d_type d_logical d_elems length Nat.eqb]. rewrite H.
-  change ((FTStruct =? FTStruct) && (LTMapEntry =? LTMapEntry) && true && (FTString =? FTString)) with true. cbv iota.
+  unfold is_json_map_entry. cbn [d_type d_logical d_elems length Nat.eqb]. rewrite H, Hx.
+  change ((FTStruct =? FTStruct) && (LTMapEntry =? LTMapEntry) && true && ((FTString =? FTString) && negb false)) with true. cbv iota.
   reflexivity.
 Qed.
 
@@ -366,14 +366,14 @@ Proof.
   change (walk_scalar (Desc 0 [] FTStruct nm [kd'; vd'] false LTMapEntry) body) with (@None wres). cbv beta iota.
   change (FTStruct =? FTSlice) with false. change (FTStruct =? FTStruct) with true. cbv iota.
   unfold is_json_map_entry. cbn [d_type d_logical d_elems length Nat.eqb]. rewrite H.
-  change ((FTStruct =? FTStruct) && (LTMapEntry =? LTMapEntry) && true && false) with false. cbv iota.
+  change ((FTStruct =? FTStruct) && (LTMapEntry =? LTMapEntry) && true && (false && negb (d_explicit kd'))) with false. cbv iota.
   destruct ((LTMapEntry =? LTMapEntry) && negb false); reflexivity.
 Qed.
 
 Lemma walk_map_outer nm kd' vd' data :
   let ed := Desc 0 [] FTStruct nm [kd'; vd'] false LTMapEntry in
   walk (Desc 0 [] FTSlice [] [ed] false LTMap) data =
-  (let isobj := d_type kd' =? FTString in
+  (let isobj := (d_type kd' =? FTString) && negb (d_explicit kd') in
    let inner :=
      let '(count, n) := read_varuint data in
      if (n <? 0)%Z then werr [] else
@@ -734,7 +734,9 @@ Proof.
     { intros nme. destruct (with_field_keeps 1 nme kd) as (_ & _ & T & _). rewrite T.
       destruct Hkey as [->|Hs]; [injection Ek as <-; reflexivity|].
       rewrite (strkey_type c1 kd Hs Ek). destruct c1; try reflexivity. discriminate Hs. }
-    rewrite Et. destruct c1; reflexivity.
+    rewrite Et. destruct c1; try reflexivity.
+    (* a plain string key: no explicit presence *)
+    injection Ek as <-. reflexivity.
   - injection Hd as <-. reflexivity.
   - injection Hd as <-. reflexivity.
 Qed.
@@ -1131,7 +1133,7 @@ Proof.
       * cbn [w_ev w_out wok app vev]. rewrite len_app. reflexivity.
       * rewrite Forall_forall in *. intros [k x] He. destruct (Hfe _ He) as (Hfk & Hfx & Hl). destruct (Hw _ He) as [Hwk Hwx].
         destruct (Hks _ He) as [_ Hkx]. cbn [fst snd] in *. split; [exact Hl|].
-        unfold ed. rewrite walk_entry_obj by (rewrite Hkt; reflexivity).
+        unfold ed. rewrite walk_entry_obj by (try (rewrite Hkt; reflexivity); reflexivity).
         assert (Hk0 : exists s, k = VStr s /\ len s < two64).
         { destruct Hwk as [Ho|Hwk].
           - destruct k; cbn [omit] in Ho; try discriminate. exists s. split; [reflexivity|]. exact Hfk.
